@@ -327,10 +327,19 @@ pub fn run_c09(o: &Opts) -> i32 {
         check_common(l, &a, &b, "planted");
         l.count("planted_offset_pairs", 1);
         // near miss: break one symbol of the gram in b
+        // (every position: a 6-symbol match that breaks only at its last symbol at the very end of
+        // a string is where a scan that looks one symbol too far would leave the slice)
+        for kk in 0..7 {
+            let mut b3 = b.clone();
+            b3[ob + kk] = 21 + (b3[ob + kk] % 21);
+            check_common(l, &a, &b3, "near-miss-6");
+            let mut a3 = a.clone();
+            a3[oa + kk] = a3[oa + kk] % 21;
+            check_common(l, &a3, &b, "near-miss-6");
+        }
         let mut b2 = b.clone();
         let k = rng.usize_below(7);
         b2[ob + k] = 21 + (b2[ob + k] % 21);
-        check_common(l, &a, &b2, "near-miss-6");
         // second occurrence somewhere else (overlapping allowed)
         if la >= 14 {
             let mut a2 = a.clone();
